@@ -1,4 +1,5 @@
 import ctypes
+import operator
 from enum import Enum
 
 ############
@@ -48,7 +49,10 @@ def check_int_range(value, bits: int, signed: bool, what: str) -> None:
 
     ctypes silently truncates out-of-range integers, which would make an
     operand decode as a different, valid-looking one."""
-    if not isinstance(value, int):
+    try:
+        # anything ctypes would accept as an integer (e.g. numpy integers)
+        value = operator.index(value)
+    except TypeError:
         return
     if signed:
         low, high = -(2 ** (bits - 1)), 2 ** (bits - 1) - 1
